@@ -10,22 +10,21 @@ Import ListNotations.
 Local Open Scope Z_scope.
 
 (* for every power-on state, every file and input that are well-behaved on the image (ISA trace defined, in range,
-   read-safe, first instruction not a system call, nothing read outside the image before it is written) and whose ISA
-   run exits within n instructions: hextb (11 + 2n loop iterations suffice) and hexsim produce the ISA's events, leave
-   the same input unread and return the same exit code.
-   Two of the hypotheses inside well_behaved exclude shapes that lie inside the property's literal quantifier; both are
-   KNOWN FINDINGS, see known_findings.json, exhibited by tools/c06.py on every run with hand-assembled binaries:
-     - step_safe's read clause (a READ does not overwrite the word of its own SVC), kind read-overwrites-own-svc:
-       hextb retires the overwritten byte, hexsim the SVC;
-     - fetch (boot ws) <> 211 (the first instruction is not a system call), kind first-instruction-svc: hextb never
-       samples the request of the instruction at byte 0, hexsim services it. *)
+   read-safe, nothing read outside the image before it is written) and whose ISA run exits within n instructions: hextb
+   (9 + 2n loop iterations suffice) and hexsim produce the ISA's events, leave the same input unread and return the same
+   exit code.
+   step_safe's read clause (a READ does not overwrite the word of its own SVC) excludes a shape that lies inside the
+   property's literal quantifier: KNOWN FINDING, see known_findings.json (kind read-overwrites-own-svc: hextb retires the
+   overwritten byte, hexsim the SVC), exhibited by tools/c06.py on every run with a hand-assembled binary.
+   The former hypothesis "the first instruction is not a system call" is gone: since the repair of hextb.cpp the request of
+   the instruction at address 0 is sampled at the last reset edge (known_findings.json: fixed, kind first-instruction-svc). *)
 Theorem C06_tb_equals_sim : forall (i : init) (file : list Z) (hw : nat) (inp : inputs) (n : nat)
     (tr : list event) (inp' : inputs) (a' : arch) (c : Z),
   let ws := firstn hw (loaded_words file) in
   bytes_ok file -> (hw <= List.length (loaded_words file))%nat ->
   well_behaved (Z.of_nat hw) ws inp ->
   Isa.run n (boot ws) inp [] = (tr, inp', a', Exited c) ->
-  (exists st, run Current RtlHex.design (11 + 2 * n) 0 (power_on i file) inp [] = (tr, inp', st, TReturned (SimModel.to_int c))) /\
+  (exists st, run Current RtlHex.design (9 + 2 * n) 0 (power_on i file) inp [] = (tr, inp', st, TReturned (SimModel.to_int c))) /\
   (exists s, SimModel.run n 0 (SimModel.cpp_init ws) inp [] = (tr, inp', s, SimModel.Returned (SimModel.to_int c))).
 Proof. exact tb_equals_sim. Qed.
 Print Assumptions C06_tb_equals_sim.
@@ -43,3 +42,11 @@ Example C06_hypotheses_satisfiable :
   well_behaved 9 (firstn 9 (loaded_words exit7_file)) no_input /\
   exists a', Isa.run 20 (boot (firstn 9 (loaded_words exit7_file))) no_input [] = ([Exit 7], no_input, a', Exited 7).
 Proof. split; [exact exit7_bytes_ok|]. split; [vm_compute; repeat constructor|]. split; [exact exit7_well_behaved_image | exact exit7_isa_run]. Qed.
+(* a binary whose first instruction is OPR SVC (EXIT 42) satisfies the hypotheses; the testbench now exits with 42 *)
+Example C06_first_instruction_svc :
+  outcome (run Previous RtlHex.design 60 0 (power_on (planted 0 0 false) first_svc_file) no_input []) = ([Exit 9], TReturned 9) /\
+  outcome (run Current RtlHex.design 60 0 (power_on (planted 0 0 false) first_svc_file) no_input []) = ([Exit 42], TReturned 42) /\
+  outcome (run Current RtlHex.design 60 0 (power_on (planted 13 1 true) first_svc_file) no_input []) = ([Exit 42], TReturned 42) /\
+  (exists a', Isa.run 5 (boot (loaded_words first_svc_file)) no_input [] = ([Exit 42], no_input, a', Exited 42)) /\
+  well_behaved 5 (loaded_words first_svc_file) no_input.
+Proof. exact first_svc_witness. Qed.
